@@ -15,6 +15,7 @@ import logging
 import math
 import os
 import pickle
+import re
 from numbers import Number
 
 import networkx as nx
@@ -38,6 +39,10 @@ REF_END = '")'
 REF_FORMAT = REF_START + '{}' + REF_END
 
 Mismatch = collections.namedtuple('Mismatch', 'original calced formula')
+
+# json escapes a character outside of the BMP as a pair of surrogates
+JSON_SURROGATE_PAIR_RE = re.compile(
+    r'(?<!\\)((?:\\\\)*)\\u(d[89ab][0-9a-f]{2})\\u(d[c-f][0-9a-f]{2})')
 
 pycel_logger = logging.getLogger('pycel')
 
@@ -228,8 +233,16 @@ class ExcelCompiler:
                 ymlo.width = 120
                 ymlo.dump(extra_data, f)
         else:
+            def join_surrogates(match):
+                high, low = (int(match.group(i), 16) for i in (2, 3))
+                return match.group(1) + chr(
+                    0x10000 + ((high - 0xD800) << 10) + (low - 0xDC00))
+
             with open(filename, 'w') as f:
-                json.dump(extra_data, f, indent=4)
+                # the file is read back as yaml, which does not join the
+                # surrogate pairs json writes for non BMP characters
+                f.write(JSON_SURROGATE_PAIR_RE.sub(
+                    join_surrogates, json.dumps(extra_data, indent=4)))
 
         del extra_data['cell_map']
 
